@@ -1223,3 +1223,65 @@ def rule_owner_reparent(db, chk, cfg, rule="OWNER.reparent"):
     if n < 100:
         raise AnalysisBroken("%s: only %d heaps enumerated" % (rule, n))
     return n
+
+
+# ---------------------------------------------------------------------------
+# SPLIT.recorded: a ring split off in tree mode is entered in a splits list (C04)
+# ---------------------------------------------------------------------------
+
+def rule_split_recorded(db, chk, cfg, rule="SPLIT.recorded"):
+    """DoSplitOp and ProcessHorzJoins cut one ring into two (NewOutRec).  In tree mode the two records are tied together through a
+    `splits` list - the only way RecursiveCheckOwners can later find out that a ring whose tentative owner is one of them really lies
+    in the other.  On every path from the NewOutRec() call on which using_polytree_ can be true, a `...->splits->emplace_back(..)`
+    follows before the iteration / function ends (forward may-analysis over the structured CFG)."""
+    n = 0
+    for f in db.funcs:
+        if f.is_pattern or f.body is None or f.cls not in ("ClipperBase", "Clipper64", "ClipperD"):
+            continue
+        news = [x for x in walk(f.body) if x.get("kind") in ("CallExpr", "CXXMemberCallExpr") and db.callee(x)[0] == "NewOutRec"]
+        links = [x for x in walk(f.body) if x.get("kind") == "CXXMemberCallExpr" and db.callee(x)[0] in ("emplace_back", "push_back") and
+                 "splits" in canon(db.member_base(x) or {})]
+        if not news or not links:
+            continue
+
+        class C(Client):
+            def __init__(self):
+                self.bad = []
+
+            def join(self, a, b):
+                return a or b
+
+            def stmt(self, node, st):
+                for y in walk(node):
+                    if any(y is l for l in links):
+                        st = False
+                    elif any(y is m for m in news):
+                        st = True
+                return st
+
+            def cond_atom(self, expr, st):
+                st = self.stmt(expr, st)
+                e = strip(expr)
+                if e.get("kind") == "MemberExpr" and e.get("name") == "using_polytree_":
+                    return st, False
+                return st, st
+
+            def on_return(self, node, st):
+                if st:
+                    self.bad.append(node)
+
+            def on_exit(self, st):
+                if st:
+                    self.bad.append(None)
+        cl = C()
+        Walker(cl).function(f.body, False)
+        n += 1
+        chk.instance(rule, {"function": f.qual, "NewOutRec_sites": len(news), "splits_links": len(links), "cfg": cfg}, ok=not cl.bad)
+        if cl.bad:
+            at = cl.bad[0]
+            chk.violation(rule, f.qual, "splits", "%s can finish%s with a ring split off in tree mode (NewOutRec) that was entered in no `splits` list: a ring created later "
+                          "inside it keeps the other half as its owner and is reported at the wrong level of the tree" % (f.qual, (" at %s" % where(at)) if at is not None else ""),
+                          where(at) if at is not None else f.where, cfg=cfg)
+    if n < 2:
+        raise AnalysisBroken("%s: fewer than 2 ring-splitting functions found (configuration %s)" % (rule, cfg))
+    return n
